@@ -18,7 +18,8 @@ def make_schedule(seed, density, pages, start_error):
     for kind in ('erase', 'addr', 'write'):
         for k in range(pages):
             if r.random() < density:
-                busy[(kind, k)] = [r.choice(DELAYS) if r.random() < 0.7 else r.randrange(1 << 24) for _ in range(r.randrange(1, 5))]
+                n = r.randrange(1, 5) if r.random() < 0.93 else r.choice([31, 32, 33, 34, 40, 100, 257])   # now and then a very slow operation
+                busy[(kind, k)] = [r.choice(DELAYS) if r.random() < 0.7 else r.randrange(1 << 24) for _ in range(n)]
             if r.random() < density / 2:
                 idle[(kind, k)] = r.choice(DELAYS[2:])
     s = {'busy': busy, 'idle_delay': idle}
@@ -121,7 +122,7 @@ def run(tier):
         step = 16385 // env.NPROC + 1
         chk.merge(env.run_shards(lengths_job, [(a, min(a + step, 16385)) for a in range(0, 16385, step)]))
     chk.rule = ('Hypothesis: bronzebeard.dfu.cli_main() in-process against a simulated DfuSe device (4 flash sizes; firmware length 0, 1, k*1024 '
-                '+ {-1,0,1}, size - {0,1,...}, drawn; content PRNG(seed) with 0x00/0xff tails; per-operation busy schedules of 0-4 dfuDNBUSY answers '
+                '+ {-1,0,1}, size - {0,1,...}, drawn; content PRNG(seed) with 0x00/0xff tails; per-operation busy schedules of 0-4 (now and then 31-257) dfuDNBUSY answers '
                 'with poll delays 0..2^24-1 ms, delays on non-busy answers, device initially in dfuERROR) with a virtual clock owned by the harness%s. '
                 'oracle: flash[0:len] == image, rest of last page 0x00, all other pages untouched; erase-before-write, addresses inside flash, '
                 'no request before a requested delay elapsed, DNLOAD only after the previous operation was polled to completion; exit status 0. '
